@@ -134,15 +134,29 @@ class Ctx:
                 raise RuntimeError("back ends disagree on %s: %s" % (ob["name"], ob["backend"]))
         for ob in todo:
             self._triage(ob)
+        self._check_probes(todo)
         return todo
+
+    def _check_probes(self, todo):
+        """vacuity: a probe is a deliberately false sibling ("this normal path / this language is empty").
+        Per function at least one probe must survive (not be discharged); path probes of infeasible
+        paths may be discharged."""
+        by_fn = {}
+        for ob in todo:
+            if ob["probe"]:
+                by_fn.setdefault((ob["function"], ob["kind"]), []).append(ob)
+        for (fn, grp), obs in by_fn.items():
+            if grp == "path-probe":
+                bad = obs if all(o["status"] == "unsat" for o in obs) else []
+            else:
+                bad = [o for o in obs if o["status"] == "unsat"]
+            if bad:
+                raise RuntimeError("vacuity probe %s was discharged: contract or encoding of %s is contradictory"
+                                   % (bad[0]["name"], fn))
 
     def _triage(self, ob):
         if ob["probe"]:
-            # vacuity probe: a deliberately false sibling; it must NOT be discharged
-            if ob["status"] == "unsat":
-                raise RuntimeError("vacuity probe %s was discharged: contract or encoding of %s "
-                                   "is contradictory" % (ob["name"], ob["function"]))
-            return
+            return          # judged per function in _check_probes
         if ob["status"] == "unsat":
             return
         detail = {"status": ob["status"], "backend": ob.get("backend"), "model": _jsonable(ob.get("model")),
